@@ -298,7 +298,7 @@ def pointer_case(ctx, text, docs):
     c = guarded(lambda: RelativeJSONPointer(text))
     if classify(ctx, c, fam, "RelativeJSONPointer()", case):
         ctx.count("relative_accepted")
-        for base in ("", "/a/1", "/0", "/a/b/c", "/1/2/3"):
+        for base in ("", "/a/1", "/0", "/a/b/c", "/1/2/3", "/a/\u00b2", "/\u2460", "/a/\u2082\u2083/b", "/\u0663", "/a/\uff11", "/x/1\u00b2", "/a/+1", "/a/1_0", "/a/ 1", "/a/" + "9" * 16, "/a/" + "9" * 17, "/a/-0"):
             o = guarded(lambda: c.value.to(base))
             classify(ctx, o, fam, "relative.to", dict(case, base=base))
             o = guarded(lambda: JSONPointer(base).to(text))
